@@ -100,6 +100,7 @@ func dumpDep(p *Prog, st *State, v Val) string {
 }
 
 func checkC05(p *Prog, rp *Report) {
+	defer stateRule(p, rp, "C05-STATE", p.Func("dependency", "Parse"), p.Func("dependency", "ParseArch"), p.Func("dependency", "ParseArchitectures"), p.Method("dependency", "Dependency", "UnmarshalControl"), p.Method("dependency", "Arch", "UnmarshalControl"), p.Method("dependency", "Dependency", "String"), p.Method("dependency", "Arch", "String"), p.Method("dependency", "Dependency", "MarshalControl"), p.Method("dependency", "Arch", "MarshalControl"))
 	rp.Explanation = "C05-FIELDS: every field of the dependency structures that the parser's call tree stores into is loaded somewhere in the call tree of Dependency.String (a field the renderer never looks at cannot survive a round trip). C05-BYTES: no function reachable from the parser converts an integer (a byte of the input) to a string, which would re-encode bytes >= 0x80. C05-NOEMPTY: (parser transition system of C04) no relation without alternatives and no empty profile group or profile is ever stored, so nothing the parser stores renders to nothing. C05-ALIAS: decode, copy the value, decode again into the same variable: the copy is unchanged and the variable holds exactly the second value. C05-ARCH: parse / render / parse of architecture names interpreted abstractly on every name of 1 to 4 hyphen separated components over {any, all, gnu, linux, x, y}, through ParseArch and through Arch.UnmarshalControl: the (abi, os, cpu) triple is unchanged. C05-FIXPOINT: Parse, Dependency.String and Parse again interpreted on a family of accepted fields (every combination of qualifier, version clause, positive/negated architecture list, profile groups, substvar, alternatives and relations, with regular and irregular spacing): the rendering is accepted and parses to the same structure."
 	rp.NotDecided = "the fixpoint for every accepted string (C05-FIXPOINT covers a generated family, the other clauses are universal); bytes >= 0x80 inside names."
 	rp.Trusted = []string{"go/types, go/ssa", "strings.SplitN / Join / Contains models", "C04 (parser transition system)"}
@@ -317,6 +318,8 @@ func c05Arch(p *Prog, rp *Report) {
 			}
 		}
 	}
+	// names with an empty component (accepted or not, what is accepted has to survive)
+	names = append(names, "-", "--", "x-", "-x", "gnu-linux-", "gnu--amd64", "-linux-amd64", "any-any-", "x--", "--x", "linux-", "-amd64")
 	m := depMachine(p)
 	parseVia := func(entry string, name string) (string, string) {
 		st := initState(m, "dependency")
@@ -433,6 +436,8 @@ func c05Fixpoint(p *Prog, rp *Report) {
 	}
 	fields = append(fields, "foo (< 1.0)", "foo (> 1.0)", "foo (<1)", "foo (>1)", "foo (== 1)", "foo (!= 1)", "foo(>=1)", "foo [amd64] [i386]", "foo <a> [amd64] (>= 1)", "foo:any:amd64", "foo [amd64 !i386]")
 	// clauses that are present but empty (accepted or not, the answer has to survive rendering)
+	// architecture names with an empty component, as qualifier and in a list
+	fields = append(fields, "foo:gnu-linux-", "foo [gnu-linux-]", "foo [gnu-linux- amd64]", "foo [!gnu-linux-]", "foo [x-]", "foo [-]", "foo:-", "foo:x-", "foo:-x", "foo [any-any-]", "foo:gnu--")
 	fields = append(fields, "foo (>= )", "foo (>=)", "foo ( = )", "foo (<< ) [amd64]", "foo ()", "foo ( )", "foo []", "foo [ ]", "foo [!]", "foo < >", "foo <> <a>", "foo (>= 1 )", "foo ( >= 1)", "foo (>= ) | bar (<< )", "${}", "${ }", "foo:any ()")
 	var problems []string
 	n, accepted := 0, 0
